@@ -1352,6 +1352,10 @@ pub fn fairness_configs(thorough: bool) -> Vec<Config> {
     // a stream that has been served several times and is parked, then another stream with a backlog joins:
     // the returning stream must not wait for the whole backlog (stale tickets vs the counter)
     v.push(Config { name: "fair-n2-late-insert".into(), items: vec![5, 5], preload: vec![5, 4], windows: 0, ..base.clone() });
+    // ... the same after a LONG history of the first stream (its tickets far ahead of anything a newcomer is given): the
+    // newcomer must not be served for as long as it takes its ticket to catch up
+    v.push(Config { name: "fair-n2-late-insert-after-long-history".into(), items: vec![12, 6], preload: vec![12, 6], windows: 0, ..base.clone() });
+    v.push(Config { name: "fair-n3-late-insert-after-long-history".into(), k: 3, items: vec![10, 5, 5], preload: vec![10, 5, 5], fair_bound: 4, windows: 0, ..base.clone() });
     if thorough {
         v.push(Config { name: "fair-n2-late-insert-win1".into(), items: vec![5, 5], preload: vec![5, 4], windows: 1, ..base.clone() });
         v.push(Config { name: "fair-n3-late-insert".into(), k: 3, items: vec![5, 5, 3], preload: vec![5, 4, 3], fair_bound: 4, windows: 0, ..base.clone() });
